@@ -1673,6 +1673,7 @@ def x_getaffinity(I, args, n):
     I.n_fresh += 1
     bits.content = Z.Array(f"kernel_mask!{I.n_fresh}", Z.BitVecSort(64), Z.BitVecSort(64))
     I.ghost["sched_getaffinity.args"] = args
+    o.kernel_size = size.t          # ghost: how many bytes of the set the kernel was asked to fill (the last call counts)
     return sys_result(I, "sched_getaffinity", 32, (0, 0))
 
 
@@ -1688,6 +1689,9 @@ def x_cpucount(I, args, n):
     if o is None or o.kind != "struct" or not hasattr(o, "dyn_words"):
         raise Unsupported("__sched_cpucount mask")
     I.oblige("__sched_cpucount(setsize) does not exceed the allocation", "bounds", Z.ULE(size.t, o.dyn_words * 8))
+    if getattr(o, "kernel_size", None) is not None:
+        # functional: the count (and the scan it drives) covers the WHOLE mask the kernel filled, not a prefix of it
+        I.oblige("CPU_COUNT_S is taken over the size sched_getaffinity() filled", "post", size.t == o.kernel_size)
     bits = _cpuset_bits(I, o)
     I.n_fresh += 1
     P = Z.Function(f"P!{I.n_fresh}", Z.BitVecSort(64), Z.BitVecSort(32))
